@@ -459,9 +459,12 @@ def correspondence(ctx, model_ok: bool):
             ("sqlrow", lambda t: C.extract(C.update(t))),
             ("bounds", lambda t: Timespan(t.begin, t.end)),
         ):
-            b = rt(a)
+            try:
+                b = rt(a)
+            except Exception as e:  # a serialised form that cannot be read back is a failed round trip
+                b = f"{type(e).__name__}: {e}"
             n_conv += 1
-            if not (b == a and b.nsec == a.nsec and hash(a) == hash(b)):
+            if isinstance(b, str) or not (b == a and b.nsec == a.nsec and hash(a) == hash(b)):
                 viol(f"{form} round trip of {a.nsec} gives {getattr(b, 'nsec', b)}", f"serial:{form}:{a.nsec}",
                      {"kind": "serial", "form": form, "a": list(a.nsec)})
     ctx.evaluations += n_conv
